@@ -482,6 +482,20 @@ impl Source {
 			})
 		})
 	}
+	/// `stream` with recognition of a stream that can never finish (inner `Err`), see
+	/// `util::block_on_detecting_deadlock`
+	#[allow(clippy::type_complexity)]
+	pub fn stream_detecting_deadlock(&self, bbox: TileBBox) -> Result<Result<Vec<(Coord, Vec<u8>)>, String>, crate::engine::PanicInfo> {
+		guard(|| {
+			util::block_on_detecting_deadlock(async {
+				let s = match self {
+					Source::Reader(r) => r.get_bbox_tile_stream(bbox).await,
+					Source::Op(o) => o.get_tile_stream(bbox).await,
+				};
+				s.collect().await.into_iter().map(|(c, b)| (Coord::from_vt(&c), b.into_vec())).collect()
+			})
+		})
+	}
 	pub fn coverage(&self) -> BTreeMap<u8, (u32, u32, u32, u32)> {
 		crate::model::pyramid_boxes(&self.parameters().bbox_pyramid)
 	}
